@@ -883,10 +883,12 @@ impl Lib for Flavour {
     }
     fn call(&self, g: Grp, op: Op, args: &[&[u8]]) -> Out {
         simtypes::take_panic();
+        simtypes::set_in_facade(true);
         let r = catch_unwind(AssertUnwindSafe(|| match g {
             Grp::G1 => dispatch::<Bls12381G1Impl>(op, args),
             Grp::G2 => dispatch::<Bls12381G2Impl>(op, args),
         }));
+        simtypes::set_in_facade(false);
         match r {
             Ok(Ok(v)) => Out::Ok(v),
             Ok(Err(s)) => Out::Rej(s),
